@@ -100,6 +100,28 @@ def _torch_samplers(ctx, impl, rng):
         ctx.case(('torch-randclifford', n, tuple(tape)), True, sample=dict(op='torch random_clifford', N=n))
         if t.foreign:
             ctx.fail('torch.random_clifford', 'draws something other than fair bits: %s' % (t.foreign[:3],), dict(N=n))
+    # (b') the torch random_pauli (batched pair sampling with per-row resampling) as a function of the bits it draws: the model's
+    #      T.randomPauli (Model/Torch.lean), about which validity is proved
+    for _ in range(ctx.budget(120, 1200)):
+        n = rng.choice([1, 2, 2, 3, 3, 4, 5])
+        tape = [rng.randrange(2) for _ in range(4 * n + rng.choice([0, 2, 4, 6, 12]))]
+        if rng.random() < 0.4:
+            k = rng.randrange(n)
+            tape[2 * k:2 * k + 2] = [0, 0]            # an identity first string: this row must be resampled
+        t = _TorchTape(torch, tape)
+        try:
+            torch.randint = t
+            gs = TU.random_pauli(n)
+            got = 'ok %s %d' % (E.estrs([[ival(v) for v in g] for g in gs.tolist()]), len(tape) - t.pos)
+        except _TorchTape.Exhausted:
+            got = 'err tape-underflow'
+        except Exception as e:
+            torch.randint = orig
+            ctx.fail('torch.random_pauli', 'implementation raised %r' % e, dict(N=n, tape=tape)); continue
+        finally:
+            torch.randint = orig
+        ctx.q('torch.random_pauli', 'T.randpauli %d %s' % (n, E.ebits(tape)), got)
+        ctx.case(('torch-randpauli', n, tuple(tape)), True, sample=dict(op='torch random_pauli', N=n))
     # (c) exact distribution of the torch random_pauli(2) over all tapes that need no resampling: 36 string tables, each equally often
     counts = {}
     for bits in itertools.product((0, 1), repeat=8):
